@@ -433,6 +433,7 @@ func c07Blocks(r *core.Run, p *core.Program) {
 	c16ResumePosition(r, p, rule)
 	lb := p.Func("lib/chain.(*BlockDB).LoadBlockIndex")
 	if lb != nil {
+		c16RecordCounted(r, p, rule, lb)
 		// a short read leaves the loop
 		okShort := false
 		for _, b := range lb.Blocks {
